@@ -51,7 +51,7 @@ def run(ctx):
     programs = programs + tc.far_programs(rng, th)          # full images beyond 64 KiB
     programs = programs + tc.refusal_programs(rng)          # refused operations in the middle of a history
     programs = programs + tc.default_programs(ctx, rng, th)  # entries obtained from the entry types' Default
-    programs = programs + tc.related_programs(rng, th)      # duplicates, next ids, continuing ranges
+    programs = programs + tc.related_programs(rng, th, ctx=ctx)   # duplicates, next ids, continuing ranges (seeded and TLC-enumerated)
     tc.judge(ctx, programs, "c01")
     # the seeded programs again on the build with integer-overflow checks and debug assertions
     vlib.run_and_judge(ctx, rnd + longs[:12], "Trace_Tables.cfg", "Trace_Tables.tla", "c01chk", profile="checked")
